@@ -155,7 +155,23 @@ func scanJag(c *core.Ctx) []ob {
 				}
 			}
 			if guarded {
-				out = append(out, okOb("JAG", key, pos, "access guarded by a comparison of the column index with a row-dependent size", true))
+				// the column loop then runs over a row-independent range, which must be the maximum row length
+				hasMax := false
+				if lj.bound != nil {
+					ast.Inspect(lj.bound, func(x ast.Node) bool {
+						if call, ok := x.(*ast.CallExpr); ok {
+							if f := calleeFunc(info, call); f != nil && (f.Name() == "Max" || f.Name() == "MaxSlice") {
+								hasMax = true
+							}
+						}
+						return true
+					})
+				}
+				if lj.isFor && !hasMax {
+					out = append(out, violOb("JAG", key, pos, fmt.Sprintf("%s guards the access with `%s < size[%s]` but runs the column loop only up to %s, which is not the maximum row length: rows longer than that bound are silently truncated", fkey, jo.Name(), io.Name(), exprString(lj.bound))))
+					return true
+				}
+				out = append(out, okOb("JAG", key, pos, "column loop runs to the maximum row length and the access is guarded by a row-dependent size", true))
 				return true
 			}
 			b := "?"
